@@ -1291,13 +1291,16 @@ impl<'a> Attribute<'a> {
 //@end
 }
 impl<'a> Attributes<'a> {
-//@extract attributes::Attributes::has_nil | src/events/attributes.rs :: impl<'a> Attributes<'a> :: fn has_nil | serves=C05,C07 n13=1
+//@extract attributes::Attributes::has_nil | src/events/attributes.rs :: impl<'a> Attributes<'a> :: fn has_nil | serves=C05,C07,C14 n13=1
 //@rewrite use crate::name::ResolveResult::*; ==> 
 //@rewrite self.any(|attr| { ==> any_attr(self, |attr: core::result::Result<Attribute<'a>, AttrError>| {
 //@rewrite Bound(Namespace( ==> ResolveResult::Bound(Namespace(
  pub(crate) fn has_nil<R>(&mut self, reader: &NsReader<R>) -> (r: bool)
         // C03 / C07: looking for `xsi:nil` terminates and never panics, whatever the tag contains (errors of the iterator are skipped)
         requires old(self).inv(), reader.ns_resolver.wf(),
+            // C14: `xsi:nil` is looked up with the XML attribute rules -- by BOTH event sources (what they hand over is `attributes()`, never the
+            // lenient HTML iterator; seed C14_j)
+            !old(self).state.html,
         ensures final(self).inv(), final(self).bytes == old(self).bytes,
  {
         any_attr(self, |attr: core::result::Result<Attribute<'a>, AttrError>| {
